@@ -18,6 +18,8 @@ var Hostile = []string{
 	"\"\\U0000", "b'\\u0041'", "/*", "/*/", "\x00", "\xff", "\xc3", "\xe3\x81", "@", "$", "\\", "'\n'", "1e", "1.e", "..", ".",
 	"'\\", "r'\\", "b\"\\", "`\\", "?", "!", "@@", "#", "--", "//", "{", "}", "|>", "->", "=>", "+=", "-=", ">>", "<>",
 	"1.5.2", "1e+", "0X", "'\\400'", "\"\\ud800\"", "\"\\U00110000\"", "`\\x41`", "'\\e'",
+	// truncated multi-byte sequences at the end of a literal / identifier (written as escapes and raw)
+	"'a\\xef\\xbf'", "\"\\xEF\\277\"", "`k\\xef\\xbf`", "'\\xf0\\x9f\\x98'", "'\\xe2\\x82'", "'\\xc3'", "'\xef\xbf'", "`\xe3\x81`", "b'\\xef\\xbf'",
 }
 
 // Punct is the punctuation vocabulary.
@@ -105,7 +107,9 @@ func Tokens(t *rapid.T, src string, maxEdits int) string {
 			continue
 		}
 		i := rapid.IntRange(0, len(ps)-1).Draw(t, "at")
-		switch rapid.IntRange(0, 5).Draw(t, "op") {
+		switch rapid.IntRange(0, 6).Draw(t, "op") {
+		case 6: // permute / repeat / drop a comma-separated or keyword-introduced clause
+			ps = Split(Segments(t, Join(ps)))
 		case 0: // delete
 			ps = append(ps[:i:i], ps[i+1:]...)
 		case 1: // duplicate
@@ -183,6 +187,99 @@ func Repeat(t *rapid.T, frag string, maxN int) string {
 	}
 	b.WriteString(close)
 	return b.String()
+}
+
+// Segments permutes or repeats the comma-separated clauses of a sentence: the token list is cut at the commas of one
+// bracket depth (0 or 1), and two segments are swapped, one is duplicated, moved to the end, or dropped. Trailing
+// clauses that must come in a fixed order (", INTERLEAVE IN ...", ", ROW DELETION POLICY (...)", INSERT / UPDATE / DELETE
+// lists of ALTER PROTO BUNDLE ...) are what this reaches and token-level edits do not. It also swaps two adjacent
+// keyword-introduced clauses when there is no comma to cut at.
+func Segments(t *rapid.T, src string) string {
+	ps := Split(src)
+	if len(ps) < 3 {
+		return src
+	}
+	level := rapid.IntRange(0, 1).Draw(t, "seg.level")
+	type seg struct{ from, to int } // token range [from, to), without the separating comma
+	var segs []seg
+	depth, start := 0, 0
+	first := -1
+	for i, p := range ps {
+		switch p.Raw {
+		case "(", "[", "{":
+			depth++
+		case ")", "]", "}":
+			depth--
+		}
+		if first < 0 && depth == level {
+			first, start = i, i
+			if level == 1 {
+				start = i + 1
+			}
+		}
+		if p.Raw == "," && depth == level && first >= 0 {
+			segs = append(segs, seg{start, i})
+			start = i + 1
+		}
+		if level == 1 && depth == 0 && first >= 0 && i > first {
+			segs = append(segs, seg{start, i}) // closing bracket ends the list
+			break
+		}
+	}
+	if level == 0 {
+		segs = append(segs, seg{start, len(ps)})
+	}
+	if len(segs) < 2 {
+		// no comma list at that level: swap two adjacent keyword-introduced clauses instead
+		var kw []int
+		for i, p := range ps {
+			if i > 0 && len(p.Raw) > 1 && p.Raw[0] >= 'A' && p.Raw[0] <= 'Z' && strings.ToUpper(p.Raw) == p.Raw {
+				kw = append(kw, i)
+			}
+		}
+		if len(kw) < 3 {
+			return src
+		}
+		k := rapid.IntRange(0, len(kw)-3).Draw(t, "seg.kw")
+		a, b, c := kw[k], kw[k+1], kw[k+2]
+		out := append([]Piece{}, ps[:a]...)
+		out = append(out, ps[b:c]...)
+		out = append(out, ps[a:b]...)
+		out = append(out, ps[c:]...)
+		return Join(out)
+	}
+	i := rapid.IntRange(0, len(segs)-1).Draw(t, "seg.i")
+	j := rapid.IntRange(0, len(segs)-1).Draw(t, "seg.j")
+	get := func(s seg) []Piece { return append([]Piece{}, ps[s.from:s.to]...) }
+	order := make([][]Piece, len(segs))
+	for k, s := range segs {
+		order[k] = get(s)
+	}
+	switch rapid.IntRange(0, 3).Draw(t, "seg.op") {
+	case 0: // swap
+		order[i], order[j] = order[j], order[i]
+	case 1: // duplicate i after j
+		dup := get(segs[i])
+		order = append(order[:j+1:j+1], append([][]Piece{dup}, order[j+1:]...)...)
+	case 2: // move i to the end
+		m := order[i]
+		order = append(order[:i:i], order[i+1:]...)
+		order = append(order, m)
+	default: // drop i
+		order = append(order[:i:i], order[i+1:]...)
+	}
+	out := append([]Piece{}, ps[:segs[0].from]...)
+	for k, o := range order {
+		if k > 0 {
+			out = append(out, Piece{Raw: ","})
+		}
+		if len(o) > 0 && o[0].Lead == "" {
+			o[0].Lead = " "
+		}
+		out = append(out, o...)
+	}
+	out = append(out, ps[segs[len(segs)-1].to:]...)
+	return Join(out)
 }
 
 // Truncate cuts src at a drawn byte offset.
